@@ -200,6 +200,18 @@ def gen_tth(rng, n):
     # the same scenarios with the scheduler started in a thread_pool (worker_coro<true>)
     race += [Case("tth", "thp0", [[3, 0, 20], [3, 30000, 20], [3, 10, 40]]), Case("tth", "thp1", [[4, 0]]), Case("tth", "thp2", [[4, 30000]]),
              Case("tth", "thp3", [[3, rng.choice([0, 20000, 5]), rng.choice([10, 25, 40])] for _ in range(max(2, n))] + [[4, 60000], [4, 7], [3, 5]])]
+    # cancel while the worker is blocked on the first deadline (thread and pool flavour): the stale deadline must not
+    # complete a later sleeper early; fixed: cancel the top / a middle one / all but the last; random mixes
+    cb = [[5, 0, 1, 200, 650], [5, 1, 1, 200, 650], [5, 0, 2, 200, 400, 600], [5, 1, 5, 250, 450, 700], [5, 0, 3, 200, 400, 650]]
+    for _ in range(max(2, n)):
+        k = rng.randint(2, 4)
+        offs = []; t = 0
+        for _ in range(k):
+            t += rng.choice([200, 250, 300]); offs.append(t)
+        if t > 1000: offs = [200 * (i + 1) for i in range(k)]
+        cb.append([5, rng.choice([0, 1]), rng.randint(0, (1 << k) - 1)] + offs)
+    cb.append([5, 0, 1, 100, 400]); cb.append([5, 2, 1, 200, 400]); cb.append([5, 0, 4, 200, 400])     # rejected
+    race += [Case("tth", "thc%d" % i, [o]) for i, o in enumerate(cb)]
     return [Case("tth", "th0", ops[:3]), Case("tth", "th1", ops[3:] + [[1, 5]])] + race
 
 
